@@ -132,3 +132,21 @@ def is_true(x):
 
 def is_false(x):
     return (not bool(x)) if isinstance(x, core.SBool) else x is False
+
+
+def native_watchdog(fn, secs=3):
+    """run fn() natively (concrete inputs) and raise TimeoutError if it does not come back: for code that loops inside a C extension
+    which polls for signals (the regular expression engine).  The runner's own alarm is re-armed afterwards."""
+    import signal
+
+    def handler(signum, frame):
+        raise TimeoutError('watchdog')
+    old = signal.signal(signal.SIGALRM, handler)
+    left = signal.alarm(secs)
+    try:
+        return fn()
+    finally:
+        signal.alarm(0)
+        signal.signal(signal.SIGALRM, old)
+        if left:
+            signal.alarm(max(1, left))
